@@ -89,7 +89,8 @@ func c18CLI(c *Ctx, run *ev.Run) {
 		}
 		_ = os.WriteFile(targets, []byte(tt), 0o644)
 		out := filepath.Join(dir, "out.gob")
-		args := append([]string{"attack", "-targets", targets, "-rate", "0", "-workers", "32", "-max-workers", "32", "-duration", "400ms", "-output", out, "-resolvers", fd.addr}, cs.Args...)
+		args := append([]string{"attack", "-targets", targets, "-rate", "0", "-workers", "16", "-max-workers", "16", "-duration", "250ms", "-output", out, "-resolvers", fd.addr}, cs.Args...)
+		waitForPorts(run, 14000, 90*time.Second)
 		cmd := exec.Command(bin, args...)
 		logp := filepath.Join(dir, fmt.Sprintf("race-%d", i))
 		cmd.Env = append(os.Environ(), "GORACE=halt_on_error=0 log_path="+logp)
@@ -102,7 +103,7 @@ func c18CLI(c *Ctx, run *ev.Run) {
 				continue
 			}
 		}
-		okHits := 0
+		okHits, starved := 0, false
 		if b, err := os.ReadFile(out); err == nil {
 			dec := vegeta.NewDecoder(bytes.NewReader(b))
 			for {
@@ -112,12 +113,17 @@ func c18CLI(c *Ctx, run *ev.Run) {
 				}
 				if r.Error == "" {
 					okHits++
+				} else if portStarved(r.Error) {
+					starved = true
 				}
 			}
 		}
 		// the options must all be in effect together: requests for the mapped source arrive, and
 		// they arrive over both replacement addresses
-		if strings.Contains(cs.Name, "connect-to") {
+		if starved {
+			run.Count("cli_cases_not_judged_no_free_local_ports", 1)
+		}
+		if strings.Contains(cs.Name, "connect-to") && !starved {
 			amu.Lock()
 			mapped, via2, viaOther := 0, 0, 0
 			for _, a := range arrivals {
